@@ -77,10 +77,10 @@ def check_pde(case):
         s2 = abs(v_t) + abs(u - v) + 1e-3 * u + 1e-12
         res.append((r1 / s1, r2 / s2))
         if fac == 1.0:
-            # the transforms are evaluated with root finds / quadratures of absolute accuracy ~1e-6 (brentq xtol = 1e-6): in the second
-            # difference that noise is amplified by sum|C2| / hx^2, in the time difference by sum|C1| / ht
-            noise1 = 1e-6 * (64.0 / 12.0 / hx ** 2 + eps * 18.0 / 12.0 / ht) / s1
-            noise2 = 1e-6 * (18.0 / 12.0 / ht) / s2
+            # the transforms are evaluated with root finds / quadratures (brentq xtol = 1e-6) whose absolute error reaches ~6e-6 (measured in the
+            # thorough tier; 1e-5 is allowed): in the second difference that noise is amplified by sum|C2| / hx^2, in the time difference by sum|C1| / ht
+            noise1 = 1e-5 * (64.0 / 12.0 / hx ** 2 + eps * 18.0 / 12.0 / ht) / s1
+            noise2 = 1e-5 * (18.0 / 12.0 / ht) / s2
     o.label('eps<0.5' if eps < 0.5 else ('eps>1.5' if eps > 1.5 else 'eps~1'), 'tau<1' if tau < 1 else 'tau>=1', 'u=%.0e' % u)
     # The transforms are integrated with an absolute error of ~1e-5 (growing with x): where the field itself is that small
     # ('for which the oscillatory integrals converge' in the property) the residuals measure quadrature noise, not the equations.
